@@ -21,12 +21,29 @@ import (
 	"crypto/tls"
 	"errors"
 	"net/http"
+	"os"
+	"path/filepath"
 	"strings"
 	"sync/atomic"
 	"time"
 )
 
+// "cert_files" {"state": "gone" | "back"}: the static certificate pair of the assets directory becomes unreadable
+// (renamed away) / readable again - what a certificate directory that is not mounted at the next start looks like.
+func vCertFiles(s *vSim, id string, c map[string]any) {
+	for _, f := range []string{"cert.pem", "key.pem"} {
+		p := filepath.Join(vAssets, f)
+		if vStr(c["state"]) == "gone" {
+			os.Rename(p, p+".off")
+		} else {
+			os.Rename(p+".off", p)
+		}
+	}
+	s.record(map[string]any{"id": id, "op": "cert_files", "state": vStr(c["state"])})
+}
+
 func init() {
+	vExtraOps["cert_files"] = vCertFiles
 	vExtraOps["getcert"] = vGetCert
 }
 
